@@ -58,6 +58,28 @@ def pfrac(p):
     return snap(np.array([p]))[0]
 
 
+
+def random_dyadic_ensembles(count, seed):
+    """seeded family of dyadic ensembles (thorough tier): n in 2..4 states, d in 2..3, complex entries k/4, dyadic prior"""
+    import os
+    rng = np.random.default_rng(1000 + seed + int(os.environ.get("VERIF_SEED", "0") or 0))
+    fam = []
+    for t in range(count):
+        n = int(rng.integers(2, 5))
+        d = int(rng.integers(2, 4))
+        vs = []
+        for _ in range(n):
+            v = rng.integers(-3, 4, size=d) / 4.0 + 1j * rng.integers(-3, 4, size=d) / 4.0
+            if not np.any(v):
+                v[0] = 1.0
+            vs.append(v if t % 2 == 0 else v.reshape(-1, 1))
+        w = [2.0 ** -(k + 1) for k in range(n)]
+        w[-1] = 2.0 ** -(n - 1)
+        rng.shuffle(w)
+        fam.append((f"seeded dyadic ensemble #{t} (n={n}, d={d})", vs, list(w)))
+    return fam
+
+
 def instances(tier):
     T = tier == "thorough"
     fam = []
@@ -69,6 +91,7 @@ def instances(tier):
     if T:
         fam.append(("5 complex qubit kets", [np.array([1, 0j]), np.array([0, 1j]), np.array([0.5, 0.5j]), np.array([0.5, -0.5]), np.array([0.25, 0.75j])], [0.125, 0.125, 0.25, 0.25, 0.25]))
         fam.append(("3 complex d=4 kets", [np.array([1, 0, 0.5j, 0]), np.array([0.5, 0.5, 0, 0.5j]), np.array([0, 0.25, 0.25j, 1])], [0.5, 0.25, 0.25]))
+        fam += random_dyadic_ensembles(12, 11)
     return fam
 
 
@@ -76,7 +99,7 @@ def ref_me_primal(V, inst):
     vs, ps = inst
     n = len(vs)
     d = rho_exact(vs[0]).shape[0]
-    Ms = [np.asarray(V[f"M[{i}]"]) for i in range(n)]
+    Ms = [V.herm(f"M[{i}]") for i in range(n)]
     cons = [("psd", M) for M in Ms]
     tot = Ms[0]
     for M in Ms[1:]:
@@ -90,7 +113,7 @@ def ref_me_primal(V, inst):
 
 def ref_me_dual(V, inst):
     vs, ps = inst
-    Y = np.asarray(V["Y"])
+    Y = V.herm("Y")
     cons = [("psd", pfrac(ps[i]) * rho_exact(vs[i]) - Y) for i in range(len(vs))]
     return SymProgram("max", np.array([[tr(Y)]], dtype=object), cons)
 
@@ -99,7 +122,7 @@ def ref_un_primal(V, inst):
     vs, ps = inst
     n = len(vs)
     d = rho_exact(vs[0]).shape[0]
-    Ms = [np.asarray(V[f"M[{i}]"]) for i in range(n)]
+    Ms = [V.herm(f"M[{i}]") for i in range(n)]
     tot = Ms[0]
     for M in Ms[1:]:
         tot = tot + M
@@ -116,7 +139,7 @@ def ref_un_primal(V, inst):
 def ref_un_dual(V, inst):
     vs, ps = inst
     n = len(vs)
-    N = np.asarray(V["N"])
+    N = V.herm("N")
     a = np.asarray(V["a"]).reshape(-1)
     rs = [pfrac(ps[i]) * rho_exact(vs[i]) for i in range(n)]
     srho = rs[0]
